@@ -1,0 +1,6 @@
+//go:build !verif
+
+package verifhook
+
+// Point is a no-op unless the program is built with the `verif` tag.
+func Point(string) {}
